@@ -657,6 +657,8 @@ pub fn solve_itp(
     let nmax = n0 + n1_2;
     let mut scaled_epsilon = epsilon * (1u64 << nmax) as f64;
     while b - a > 2.0 * epsilon {
+        #[cfg(kurbo_verif)]
+        crate::verif_hooks::tick();
         let x1_2 = 0.5 * (a + b);
         let r = scaled_epsilon - 0.5 * (b - a);
         let xf = (yb * a - ya * b) / (yb - ya);
@@ -707,6 +709,8 @@ pub(crate) fn solve_itp_fallible<E>(
     let nmax = n0 + n1_2;
     let mut scaled_epsilon = epsilon * (1u64 << nmax) as f64;
     while b - a > 2.0 * epsilon {
+        #[cfg(kurbo_verif)]
+        crate::verif_hooks::tick();
         let x1_2 = 0.5 * (a + b);
         let r = scaled_epsilon - 0.5 * (b - a);
         let xf = (yb * a - ya * b) / (yb - ya);
